@@ -1,9 +1,11 @@
 ------------------------ MODULE ContainerConcProofs ------------------------
-(* Machine-checked (TLAPS) proofs that mutual exclusion and "a shared service is            *)
-(* constructed at most once" (C20) are invariants of ContainerConc for EVERY set of         *)
+(* Machine-checked (TLAPS) proofs that mutual exclusion, "a shared service is constructed   *)
+(* at most once" and "a parameter is evaluated at most once" (C20) are invariants of        *)
+(* ContainerConc for EVERY set of                                                           *)
 (* goroutines, services, parameters, dependency relation and operation scripts - the        *)
 (* unbounded counterpart of what TLC checks on the instances of MC_ContainerConc            *)
-(* (theorems MutexAlways and ConstructedOnceAlways at the end).  The first inductive        *)
+(* (theorems MutexAlways, ConstructedOnceAlways, EvaluatedOnceAlways at the end).  The first *)
+(* inductive                                                                                *)
 (* invariant says: a frame that is inside its critical section (phases check .. unlock of   *)
 (* an entry that needs a lock) belongs to the goroutine the lock table names, and no        *)
 (* goroutine has two such frames for one entry.                                             *)
@@ -1061,6 +1063,471 @@ THEOREM MutexAlways == (CInit /\ [][CNext]_cvars) => []MutualExclusion
     BY MutexFromInv
   <1> QED BY <1>1, <1>2, <1>3, PTL
 
+-----------------------------------------------------------------------------
+(* C20, third clause: a parameter is evaluated (successfully) at most once.  The same      *)
+(* argument as for shared services, with evals / pcache in the place of built / shared;     *)
+(* a parameter always needs its lock.                                                       *)
+IsParFrame(fr, p) == fr.kind = "par" /\ fr.id = p
+ClsP(fr, p) == IF IsParFrame(fr, p) /\ fr.phase \in {"deps", "build"} THEN "early"
+               ELSE IF IsParFrame(fr, p) /\ fr.phase = "store" THEN "store" ELSE "none"
+EvalFor(p) ==
+  /\ evals[p] \in {0, 1}
+  /\ pcache[p] => evals[p] = 1
+  /\ \A g \in G : \A i \in 1..Len(stack[g]) :
+        /\ ClsP(stack[g][i], p) = "early" => (evals[p] = 0 /\ ~pcache[p])
+        /\ ClsP(stack[g][i], p) = "store" => (evals[p] = 1 /\ ~pcache[p])
+  /\ (evals[p] = 1 /\ ~pcache[p]) => \E g \in G : \E i \in 1..Len(stack[g]) : ClsP(stack[g][i], p) = "store"
+EvalInv == evals \in [Par -> Nat] /\ \A p \in Par : EvalFor(p)
+
+THEOREM EvalImplies == EvalInv => EvaluatedOnce
+  BY DEF EvalInv, EvalFor, EvaluatedOnce
+
+LEMMA InitEval == CInit => EvalInv
+  BY DEF CInit, EvalInv, EvalFor
+
+LEMMA ParFrameHeld == ASSUME NEW s \in Par, NEW fr, IsParFrame(fr, s), fr.phase \in HeldPhases
+                      PROVE  Held(fr)
+  BY DEF Held, NeedsLock, IsParFrame
+
+LEMMA OnlyOneInsideP ==
+  ASSUME Inv, NEW s \in Par, NEW g \in G, NEW n \in 1..Len(stack[g]),
+         IsParFrame(stack[g][n], s), stack[g][n].phase \in HeldPhases,
+         NEW h \in G, NEW i \in 1..Len(stack[h]), ~(h = g /\ i = n)
+  PROVE  ClsP(stack[h][i], s) = "none"
+  <1> SUFFICES ASSUME ClsP(stack[h][i], s) # "none" PROVE FALSE
+    OBVIOUS
+  <1>1. IsParFrame(stack[h][i], s) /\ stack[h][i].phase \in HeldPhases
+    BY DEF ClsP, HeldPhases
+  <1>2. Held(stack[h][i]) /\ Held(stack[g][n]) /\ stack[h][i].id = stack[g][n].id
+    BY <1>1, ParFrameHeld DEF IsParFrame
+  <1> QED BY <1>2, HeldUnique
+
+LEMMA NeutralForP ==
+  ASSUME NEW s \in Par, EvalFor(s), evals'[s] = evals[s], pcache'[s] = pcache[s],
+         \A h \in G : \A i \in 1..Len(stack'[h]) : ClsP(stack'[h][i], s) # "none" =>
+             \E k \in 1..Len(stack[h]) : ClsP(stack[h][k], s) = ClsP(stack'[h][i], s),
+         \A h \in G : \A i \in 1..Len(stack[h]) : ClsP(stack[h][i], s) = "store" =>
+             \E k \in 1..Len(stack'[h]) : ClsP(stack'[h][k], s) = "store"
+  PROVE  EvalFor(s)'
+  BY DEF EvalFor
+
+LEMMA RetopNeutralP ==
+  ASSUME TypeOK, NEW s \in Par, EvalFor(s), NEW g \in G, Busy(g), NEW f2, Shape(g, f2),
+         Len(stack[g]) \in 1..Len(stack'[g]), stack'[g][Len(stack[g])] = f2,
+         ClsP(f2, s) = ClsP(Top(g), s),
+         evals'[s] = evals[s], pcache'[s] = pcache[s]
+  PROVE  EvalFor(s)'
+  <1> DEFINE n == Len(stack[g])
+  <1>1. n \in Nat \ {0} /\ Top(g) = stack[g][n]
+    BY BusyLen
+  <1>2. \A h \in G : \A i \in 1..Len(stack'[h]) : ClsP(stack'[h][i], s) # "none" =>
+             \E k \in 1..Len(stack[h]) : ClsP(stack[h][k], s) = ClsP(stack'[h][i], s)
+    <2> SUFFICES ASSUME NEW h \in G, NEW i \in 1..Len(stack'[h]), ClsP(stack'[h][i], s) # "none"
+                 PROVE  \E k \in 1..Len(stack[h]) : ClsP(stack[h][k], s) = ClsP(stack'[h][i], s)
+      OBVIOUS
+    <2>1. CASE i \in 1..Len(stack[h]) /\ ~(h = g /\ i = n) /\ stack'[h][i] = stack[h][i]
+      BY <2>1
+    <2>2. CASE h = g /\ i = n /\ stack'[h][i] = f2
+      <3>1. n \in 1..Len(stack[g]) /\ ClsP(stack[g][n], s) = ClsP(f2, s)
+        BY <1>1, <2>2
+      <3> QED BY <3>1, <2>2
+    <2>3. CASE h = g /\ i = n + 1 /\ stack'[h][i].phase = "lock"
+      BY <2>3 DEF ClsP
+    <2> QED BY <2>1, <2>2, <2>3 DEF Shape
+  <1>3. \A h \in G : \A i \in 1..Len(stack[h]) : ClsP(stack[h][i], s) = "store" => \E k \in 1..Len(stack'[h]) : ClsP(stack'[h][k], s) = "store"
+    <2> SUFFICES ASSUME NEW h \in G, NEW i \in 1..Len(stack[h]), ClsP(stack[h][i], s) = "store"
+                 PROVE  \E k \in 1..Len(stack'[h]) : ClsP(stack'[h][k], s) = "store"
+      OBVIOUS
+    <2>1. CASE ~(h = g /\ i = n)
+      BY <2>1 DEF Shape
+    <2>2. CASE h = g /\ i = n
+      BY <2>2, <1>1
+    <2> QED BY <2>1, <2>2
+  <1> QED BY <1>2, <1>3, NeutralForP
+
+LEMMA DropNeutralP ==
+  ASSUME TypeOK, NEW s \in Par, EvalFor(s), NEW g \in G, NEW f2, Shape(g, f2),
+         Len(stack[g]) \notin 1..Len(stack'[g]), Busy(g) => ClsP(Top(g), s) = "none",
+         evals'[s] = evals[s], pcache'[s] = pcache[s]
+  PROVE  EvalFor(s)'
+  <1> DEFINE n == Len(stack[g])
+  <1>1. stack[g] \in Seq(FrameT) /\ n \in Nat
+    BY LenProperties DEF TypeOK
+  <1>2. n # 0 => (Busy(g) /\ Top(g) = stack[g][n])
+    BY <1>1, EmptySeq DEF Busy, Top
+  <1>3. \A h \in G : \A i \in 1..Len(stack'[h]) : ClsP(stack'[h][i], s) # "none" =>
+             \E k \in 1..Len(stack[h]) : ClsP(stack[h][k], s) = ClsP(stack'[h][i], s)
+    <2> SUFFICES ASSUME NEW h \in G, NEW i \in 1..Len(stack'[h]), ClsP(stack'[h][i], s) # "none"
+                 PROVE  \E k \in 1..Len(stack[h]) : ClsP(stack[h][k], s) = ClsP(stack'[h][i], s)
+      OBVIOUS
+    <2>1. CASE i \in 1..Len(stack[h]) /\ ~(h = g /\ i = n) /\ stack'[h][i] = stack[h][i]
+      BY <2>1
+    <2>2. CASE h = g /\ i = n /\ stack'[h][i] = f2
+      BY <2>2
+    <2>3. CASE h = g /\ i = n + 1 /\ stack'[h][i].phase = "lock"
+      BY <2>3 DEF ClsP
+    <2> QED BY <2>1, <2>2, <2>3 DEF Shape
+  <1>4. \A h \in G : \A i \in 1..Len(stack[h]) : ClsP(stack[h][i], s) = "store" => \E k \in 1..Len(stack'[h]) : ClsP(stack'[h][k], s) = "store"
+    <2> SUFFICES ASSUME NEW h \in G, NEW i \in 1..Len(stack[h]), ClsP(stack[h][i], s) = "store"
+                 PROVE  \E k \in 1..Len(stack'[h]) : ClsP(stack'[h][k], s) = "store"
+      OBVIOUS
+    <2>1. CASE ~(h = g /\ i = n)
+      BY <2>1 DEF Shape
+    <2>2. CASE h = g /\ i = n
+      BY <2>2, <1>1, <1>2
+    <2> QED BY <2>1, <2>2
+  <1> QED BY <1>3, <1>4, NeutralForP
+
+LEMMA BeginEval == ASSUME Inv, EvalInv, NEW g \in G, Begin(g) PROVE EvalInv'
+  <1>1. TypeOK
+    BY DEF Inv
+  <1> DEFINE o == CurOp(g)
+             k == IF o.op = "GetParam" THEN "par" ELSE "svc"
+             fr == Frame(k, o.id)
+  <1>2. stack' = Push(g, fr) /\ ~Busy(g) /\ evals' = evals /\ pcache' = pcache
+    BY DEF Begin
+  <1>3. pcs[g] \in 1..Len(Ops[g])
+    BY <1>1 DEF Begin, TypeOK
+  <1>4. fr \in FrameT /\ fr.phase = "lock"
+    <2>1. o.id \in Keys /\ (k = "svc" => o.id \in Svc) /\ (k = "par" => o.id \in Par)
+      BY <1>3, ConstAssump DEF CurOp
+    <2> QED BY <2>1, FrameTyped DEF Frame
+  <1>5. stack[g] = <<>> /\ Len(stack[g]) = 0
+    BY <1>2 DEF Busy
+  <1>6. /\ \A h \in G : h # g => stack'[h] = stack[h]
+        /\ Len(stack'[g]) = Len(stack[g]) + 1
+        /\ stack'[g][Len(stack[g]) + 1] = fr
+    BY <1>1, <1>2, <1>4, PushProps
+  <1>7. Shape(g, fr) /\ Len(stack[g]) \notin 1..Len(stack'[g])
+    BY <1>5, <1>6, <1>4 DEF Shape
+  <1>90. evals \in [Par -> Nat] /\ evals' = evals
+    BY <1>2 DEF EvalInv
+  <1> SUFFICES ASSUME NEW s \in Par PROVE EvalFor(s)'
+    BY <1>90 DEF EvalInv
+  <1>8. EvalFor(s)
+    BY DEF EvalInv
+  <1> QED BY <1>1, <1>2, <1>7, <1>8, DropNeutralP
+
+LEMMA LockEval == ASSUME Inv, EvalInv, NEW g \in G, Lock(g) PROVE EvalInv'
+  <1>1. TypeOK /\ Busy(g) /\ Top(g).phase = "lock"
+    BY DEF Inv, Lock
+  <1> DEFINE f2 == [Top(g) EXCEPT !.phase = "check"]
+  <1>2. Top(g) \in FrameT
+    BY <1>1, BusyLen
+  <1>3. f2 \in FrameT /\ stack' = SetTop(g, f2) /\ evals' = evals /\ pcache' = pcache
+    BY <1>2 DEF Lock, FrameT, Phases
+  <1>4. Shape(g, f2) /\ Len(stack[g]) \in 1..Len(stack'[g]) /\ stack'[g][Len(stack[g])] = f2
+    BY <1>1, <1>3, SetTopShape
+  <1>90. evals \in [Par -> Nat] /\ evals' = evals
+    BY <1>3 DEF EvalInv
+  <1> SUFFICES ASSUME NEW s \in Par PROVE EvalFor(s)'
+    BY <1>90 DEF EvalInv
+  <1>5. EvalFor(s) /\ ClsP(f2, s) = "none" /\ ClsP(Top(g), s) = "none"
+    BY <1>1, <1>2 DEF EvalInv, ClsP, FrameT
+  <1> QED BY <1>1, <1>3, <1>4, <1>5, RetopNeutralP
+
+LEMMA DepEval == ASSUME Inv, EvalInv, NEW g \in G, Dep(g) PROVE EvalInv'
+  <1>1. TypeOK /\ Busy(g) /\ Top(g).phase = "deps"
+    BY DEF Inv, Dep
+  <1> DEFINE f == Top(g)
+             n == Len(stack[g])
+             ds == DepsOf[f.id]
+  <1>2. f \in FrameT /\ n \in Nat \ {0} /\ f = stack[g][n]
+    BY <1>1, BusyLen
+  <1>3. evals' = evals /\ pcache' = pcache
+    BY DEF Dep
+  <1>4. \E f2 \in FrameT : /\ Shape(g, f2) /\ n \in 1..Len(stack'[g]) /\ stack'[g][n] = f2
+                           /\ f2.kind = f.kind /\ f2.id = f.id /\ f2.phase \in {"deps", "build"} /\ f2.inst = f.inst
+    <2>1. CASE f.dep > Len(ds)
+      <3> DEFINE f2 == [f EXCEPT !.phase = "build"]
+      <3>1. f2 \in FrameT /\ f2.kind = f.kind /\ f2.id = f.id /\ f2.phase \in {"deps", "build"} /\ f2.inst = f.inst
+        BY <1>2 DEF FrameT, Phases
+      <3>2. stack' = SetTop(g, f2)
+        BY <2>1 DEF Dep
+      <3> QED BY <1>1, <3>1, <3>2, SetTopShape
+    <2>2. CASE ~(f.dep > Len(ds))
+      <3> DEFINE f2 == [f EXCEPT !.dep = f.dep + 1]
+                 d == ds[f.dep]
+                 fr == Frame(d[1], d[2])
+                 mid == [stack[g] EXCEPT ![n] = f2]
+      <3>1. f.id \in Keys /\ f.dep \in Nat \ {0} /\ ds \in Seq({"svc", "par"} \X Keys)
+        BY <1>2, ConstAssump DEF FrameT
+      <3>2. f.dep \in 1..Len(ds)
+        BY <2>2, <3>1, LenProperties
+      <3>3. d \in {"svc", "par"} \X Keys /\ (d[1] = "svc" => d[2] \in Svc) /\ (d[1] = "par" => d[2] \in Par)
+        BY <3>1, <3>2, ConstAssump, ElementOfSeq
+      <3>4. fr \in FrameT /\ fr.phase = "lock"
+        BY <3>3, FrameTyped DEF Frame
+      <3>5. f2 \in FrameT /\ f2.kind = f.kind /\ f2.id = f.id /\ f2.phase \in {"deps", "build"} /\ f2.inst = f.inst
+        BY <1>1, <1>2 DEF FrameT
+      <3>6. stack' = [stack EXCEPT ![g] = Append(mid, fr)]
+        BY <2>2 DEF Dep
+      <3>7. stack[g] \in Seq(FrameT) /\ stack \in [G -> Seq(FrameT)]
+        BY <1>1 DEF TypeOK
+      <3>8. mid \in Seq(FrameT) /\ Len(mid) = n /\ \A i \in 1..n : mid[i] = IF i = n THEN f2 ELSE stack[g][i]
+        BY <3>7, <3>5, <1>2, ExceptSeq
+      <3>9. /\ Append(mid, fr) \in Seq(FrameT) /\ Len(Append(mid, fr)) = n + 1
+            /\ \A i \in 1..n : Append(mid, fr)[i] = mid[i]
+            /\ Append(mid, fr)[n + 1] = fr
+        BY <3>8, <3>4, AppendProperties
+      <3>10. /\ \A h \in G : h # g => stack'[h] = stack[h]
+             /\ Len(stack'[g]) = n + 1
+             /\ \A i \in 1..n : i # n => stack'[g][i] = stack[g][i]
+             /\ stack'[g][n] = f2 /\ stack'[g][n + 1] = fr
+        BY <3>6, <3>7, <3>8, <3>9, <1>2
+      <3>11. Shape(g, f2) /\ n \in 1..Len(stack'[g])
+        BY <3>10, <3>4, <1>2 DEF Shape
+      <3> QED BY <3>5, <3>10, <3>11
+    <2> QED BY <2>1, <2>2
+  <1>90. evals \in [Par -> Nat] /\ evals' = evals
+    BY <1>3 DEF EvalInv
+  <1> SUFFICES ASSUME NEW s \in Par PROVE EvalFor(s)'
+    BY <1>90 DEF EvalInv
+  <1>5. EvalFor(s)
+    BY DEF EvalInv
+  <1>6. PICK f2 \in FrameT : /\ Shape(g, f2) /\ n \in 1..Len(stack'[g]) /\ stack'[g][n] = f2
+                            /\ f2.kind = f.kind /\ f2.id = f.id /\ f2.phase \in {"deps", "build"} /\ f2.inst = f.inst
+    BY <1>4
+  <1>7. ClsP(f2, s) = ClsP(f, s)
+    BY <1>6, <1>1 DEF ClsP, IsParFrame
+  <1> QED BY <1>1, <1>3, <1>5, <1>6, <1>7, RetopNeutralP
+
+LEMMA UnlockEval == ASSUME Inv, EvalInv, NEW g \in G, Unlock(g) PROVE EvalInv'
+  <1>1. TypeOK /\ Busy(g) /\ Top(g).phase = "unlock"
+    BY DEF Inv, Unlock
+  <1> DEFINE f == Top(g)
+             n == Len(stack[g])
+             f2 == [f EXCEPT !.phase = "return"]
+  <1>2. f \in FrameT /\ n \in Nat \ {0}
+    BY <1>1, BusyLen
+  <1>3. f2 \in FrameT /\ evals' = evals /\ pcache' = pcache /\ f2.phase = "return"
+    BY <1>2 DEF Unlock, FrameT, Phases
+  <1>90. evals \in [Par -> Nat] /\ evals' = evals
+    BY <1>3 DEF EvalInv
+  <1> SUFFICES ASSUME NEW s \in Par PROVE EvalFor(s)'
+    BY <1>90 DEF EvalInv
+  <1>4. EvalFor(s) /\ ClsP(f2, s) = "none" /\ ClsP(f, s) = "none"
+    BY <1>1, <1>3 DEF EvalInv, ClsP
+  <1>5. CASE n = 1
+    <2>1. stack' = SetTop(g, f2)
+      BY <1>5 DEF Unlock
+    <2>2. Shape(g, f2) /\ n \in 1..Len(stack'[g]) /\ stack'[g][n] = f2
+      BY <1>1, <1>3, <2>1, SetTopShape
+    <2> QED BY <1>1, <1>3, <1>4, <2>2, RetopNeutralP
+  <1>6. CASE n # 1
+    <2>1. stack' = Pop(g)
+      BY <1>6 DEF Unlock
+    <2>2. Shape(g, f2) /\ n \notin 1..Len(stack'[g])
+      BY <1>1, <2>1, PopShape
+    <2> QED BY <1>1, <1>3, <1>4, <2>2, DropNeutralP
+  <1> QED BY <1>5, <1>6
+
+LEMMA ReturnEval == ASSUME Inv, EvalInv, NEW g \in G, Return(g) PROVE EvalInv'
+  <1>1. TypeOK /\ Busy(g) /\ Top(g).phase = "return"
+    BY DEF Inv, Return
+  <1>2. stack' = Pop(g) /\ evals' = evals /\ pcache' = pcache
+    BY DEF Return
+  <1>3. Shape(g, Top(g)) /\ Len(stack[g]) \notin 1..Len(stack'[g])
+    BY <1>1, <1>2, PopShape
+  <1>90. evals \in [Par -> Nat] /\ evals' = evals
+    BY <1>2 DEF EvalInv
+  <1> SUFFICES ASSUME NEW s \in Par PROVE EvalFor(s)'
+    BY <1>90 DEF EvalInv
+  <1>4. EvalFor(s) /\ ClsP(Top(g), s) = "none"
+    BY <1>1 DEF EvalInv, ClsP
+  <1> QED BY <1>1, <1>2, <1>3, <1>4, DropNeutralP
+
+LEMMA CheckEval == ASSUME Inv, EvalInv, NEW g \in G, Check(g) PROVE EvalInv'
+  <1>1. TypeOK /\ Busy(g) /\ Top(g).phase = "check"
+    BY DEF Inv, Check
+  <1> DEFINE f == Top(g)
+             n == Len(stack[g])
+             f2 == IF Cached(g) # 0 THEN [f EXCEPT !.phase = "unlock", !.inst = Cached(g)] ELSE [f EXCEPT !.phase = "deps"]
+  <1>2. f \in FrameT /\ Cached(g) \in Nat /\ n \in Nat \ {0} /\ f = stack[g][n]
+    BY <1>1, BusyLen, CachedNat
+  <1>3. f2 \in FrameT /\ stack' = SetTop(g, f2) /\ evals' = evals /\ pcache' = pcache /\ f2.kind = f.kind /\ f2.id = f.id
+    BY <1>2 DEF Check, FrameT, Phases
+  <1>4. Shape(g, f2) /\ n \in 1..Len(stack'[g]) /\ stack'[g][n] = f2
+    BY <1>1, <1>3, SetTopShape
+  <1>90. evals \in [Par -> Nat] /\ evals' = evals
+    BY <1>3 DEF EvalInv
+  <1> SUFFICES ASSUME NEW s \in Par PROVE EvalFor(s)'
+    BY <1>90 DEF EvalInv
+  <1>5. EvalFor(s) /\ ClsP(f, s) = "none"
+    BY <1>1 DEF EvalInv, ClsP
+  <1>6. CASE ~(IsParFrame(f, s) /\ Cached(g) = 0)
+    <2>1. ClsP(f2, s) = "none"
+      <3>1. CASE Cached(g) # 0
+        <4>1. f2.phase = "unlock"
+          BY <3>1, <1>2 DEF FrameT
+        <4> QED BY <4>1 DEF ClsP
+      <3>2. CASE Cached(g) = 0
+        <4>1. ~IsParFrame(f2, s)
+          BY <3>2, <1>6, <1>3 DEF IsParFrame
+        <4> QED BY <4>1 DEF ClsP
+      <3> QED BY <3>1, <3>2
+    <2> QED BY <1>1, <1>3, <1>4, <1>5, <2>1, RetopNeutralP
+  <1>7. CASE IsParFrame(f, s) /\ Cached(g) = 0
+    <2>1. ~pcache[s] /\ f2.phase = "deps" /\ ClsP(f2, s) = "early"
+      <3>1. f.kind = "par" /\ f.id = s /\ pcache[s] \in BOOLEAN
+        BY <1>7, <1>1 DEF IsParFrame, TypeOK
+      <3>2. ~pcache[s]
+        BY <3>1, <1>7 DEF Cached
+      <3> QED BY <3>1, <3>2, <1>7, <1>2, <1>3 DEF IsParFrame, ClsP, FrameT
+    <2>2. \A h \in G : \A i \in 1..Len(stack[h]) : ~(h = g /\ i = n) => ClsP(stack[h][i], s) = "none"
+      <3> SUFFICES ASSUME NEW h \in G, NEW i \in 1..Len(stack[h]), ~(h = g /\ i = n) PROVE ClsP(stack[h][i], s) = "none"
+        OBVIOUS
+      <3>1. n \in 1..Len(stack[g]) /\ IsParFrame(stack[g][n], s) /\ stack[g][n].phase \in HeldPhases
+        BY <1>7, <1>2, <1>1 DEF HeldPhases
+      <3> QED BY <3>1, OnlyOneInsideP
+    <2>3. \A h \in G : \A i \in 1..Len(stack[h]) : ClsP(stack[h][i], s) = "none"
+      BY <2>2, <1>5, <1>2
+    <2>4. evals[s] = 0
+      BY <2>1, <2>3, <1>5 DEF EvalFor
+    <2>5. \A h \in G : \A i \in 1..Len(stack'[h]) : ClsP(stack'[h][i], s) \in {"none", "early"}
+      <3> SUFFICES ASSUME NEW h \in G, NEW i \in 1..Len(stack'[h]) PROVE ClsP(stack'[h][i], s) \in {"none", "early"}
+        OBVIOUS
+      <3>1. CASE i \in 1..Len(stack[h]) /\ ~(h = g /\ i = n) /\ stack'[h][i] = stack[h][i]
+        BY <3>1, <2>3
+      <3>2. CASE h = g /\ i = n /\ stack'[h][i] = f2
+        BY <3>2, <2>1
+      <3>3. CASE h = g /\ i = n + 1 /\ stack'[h][i].phase = "lock"
+        BY <3>3 DEF ClsP
+      <3> QED BY <3>1, <3>2, <3>3, <1>4 DEF Shape
+    <2> QED BY <2>1, <2>4, <2>5, <1>3 DEF EvalFor
+  <1> QED BY <1>6, <1>7
+
+LEMMA ConstructEval == ASSUME Inv, EvalInv, NEW g \in G, Construct(g) PROVE EvalInv'
+  <1>1. TypeOK /\ Busy(g) /\ Top(g).phase = "build"
+    BY DEF Inv, Construct
+  <1> DEFINE f == Top(g)
+             n == Len(stack[g])
+             f2 == IF f.kind = "par" THEN [f EXCEPT !.phase = "store", !.inst = 1] ELSE [f EXCEPT !.phase = "store", !.inst = nextInst]
+  <1>2. f \in FrameT /\ n \in Nat \ {0} /\ f = stack[g][n] /\ nextInst \in Nat \ {0} /\ evals \in [Par -> Nat]
+    BY <1>1, BusyLen DEF TypeOK, EvalInv
+  <1>3. f2 \in FrameT /\ stack' = SetTop(g, f2) /\ pcache' = pcache /\ f2.kind = f.kind /\ f2.id = f.id /\ f2.phase = "store"
+    BY <1>2 DEF Construct, FrameT, Phases
+  <1>4. Shape(g, f2) /\ n \in 1..Len(stack'[g]) /\ stack'[g][n] = f2
+    BY <1>1, <1>3, SetTopShape
+  <1>90. evals' \in [Par -> Nat]
+    <2>1. CASE f.kind = "par"
+      <3>1. f.id \in Par /\ evals' = [evals EXCEPT ![f.id] = @ + 1]
+        BY <2>1, <1>2 DEF Construct, FrameT
+      <3> QED BY <3>1, <1>2
+    <2>2. CASE f.kind # "par"
+      BY <2>2, <1>2 DEF Construct
+    <2> QED BY <2>1, <2>2
+  <1> SUFFICES ASSUME NEW s \in Par PROVE EvalFor(s)'
+    BY <1>90 DEF EvalInv
+  <1>5. EvalFor(s)
+    BY DEF EvalInv
+  <1>6. CASE ~IsParFrame(f, s)
+    <2>1. ClsP(f2, s) = "none" /\ ClsP(f, s) = "none"
+      BY <1>6, <1>3 DEF ClsP, IsParFrame
+    <2>2. evals'[s] = evals[s]
+      <3>1. CASE f.kind = "par"
+        <4>1. f.id \in Par /\ f.id # s /\ evals' = [evals EXCEPT ![f.id] = @ + 1]
+          BY <3>1, <1>2, <1>6 DEF Construct, FrameT, IsParFrame
+        <4> QED BY <4>1, <1>2
+      <3>2. CASE f.kind # "par"
+        BY <3>2 DEF Construct
+      <3> QED BY <3>1, <3>2
+    <2> QED BY <1>1, <1>3, <1>4, <1>5, <2>1, <2>2, RetopNeutralP
+  <1>7. CASE IsParFrame(f, s)
+    <2>1. ClsP(f, s) = "early" /\ evals[s] = 0 /\ ~pcache[s]
+      BY <1>7, <1>1, <1>2, <1>5 DEF ClsP, EvalFor
+    <2>2. evals'[s] = 1
+      <3>1. f.kind = "par" /\ f.id = s /\ evals' = [evals EXCEPT ![f.id] = @ + 1]
+        BY <1>7 DEF Construct, IsParFrame
+      <3> QED BY <3>1, <2>1, <1>2
+    <2>3. \A h \in G : \A i \in 1..Len(stack[h]) : ~(h = g /\ i = n) => ClsP(stack[h][i], s) = "none"
+      <3> SUFFICES ASSUME NEW h \in G, NEW i \in 1..Len(stack[h]), ~(h = g /\ i = n) PROVE ClsP(stack[h][i], s) = "none"
+        OBVIOUS
+      <3>1. n \in 1..Len(stack[g]) /\ IsParFrame(stack[g][n], s) /\ stack[g][n].phase \in HeldPhases
+        BY <1>7, <1>2, <1>1 DEF HeldPhases
+      <3> QED BY <3>1, OnlyOneInsideP
+    <2>4. ClsP(f2, s) = "store"
+      BY <1>7, <1>3 DEF ClsP, IsParFrame
+    <2>5. \A h \in G : \A i \in 1..Len(stack'[h]) : ClsP(stack'[h][i], s) \in {"none", "store"}
+      <3> SUFFICES ASSUME NEW h \in G, NEW i \in 1..Len(stack'[h]) PROVE ClsP(stack'[h][i], s) \in {"none", "store"}
+        OBVIOUS
+      <3>1. CASE i \in 1..Len(stack[h]) /\ ~(h = g /\ i = n) /\ stack'[h][i] = stack[h][i]
+        BY <3>1, <2>3
+      <3>2. CASE h = g /\ i = n /\ stack'[h][i] = f2
+        BY <3>2, <2>4
+      <3>3. CASE h = g /\ i = n + 1 /\ stack'[h][i].phase = "lock"
+        BY <3>3 DEF ClsP
+      <3> QED BY <3>1, <3>2, <3>3, <1>4 DEF Shape
+    <2>6. \E h \in G : \E i \in 1..Len(stack'[h]) : ClsP(stack'[h][i], s) = "store"
+      BY <1>4, <2>4
+    <2> QED BY <2>1, <2>2, <2>5, <2>6, <1>3 DEF EvalFor
+  <1> QED BY <1>6, <1>7
+
+LEMMA StoreEval == ASSUME Inv, EvalInv, NEW g \in G, Store(g) PROVE EvalInv'
+  <1>1. TypeOK /\ Busy(g) /\ Top(g).phase = "store"
+    BY DEF Inv, Store
+  <1> DEFINE f == Top(g)
+             n == Len(stack[g])
+             f2 == [f EXCEPT !.phase = "unlock"]
+  <1>2. f \in FrameT /\ n \in Nat \ {0} /\ f = stack[g][n] /\ pcache \in [Par -> BOOLEAN]
+    BY <1>1, BusyLen DEF TypeOK
+  <1>3. f2 \in FrameT /\ stack' = SetTop(g, f2) /\ evals' = evals /\ f2.phase = "unlock"
+    BY <1>2 DEF Store, FrameT, Phases
+  <1>4. Shape(g, f2) /\ n \in 1..Len(stack'[g]) /\ stack'[g][n] = f2
+    BY <1>1, <1>3, SetTopShape
+  <1>90. evals \in [Par -> Nat] /\ evals' = evals
+    BY <1>3 DEF EvalInv
+  <1> SUFFICES ASSUME NEW s \in Par PROVE EvalFor(s)'
+    BY <1>90 DEF EvalInv
+  <1>5. EvalFor(s) /\ ClsP(f2, s) = "none"
+    BY <1>3 DEF EvalInv, ClsP
+  <1>6. CASE ~IsParFrame(f, s)
+    <2>1. ClsP(f, s) = "none"
+      BY <1>6 DEF ClsP
+    <2>2. pcache'[s] = pcache[s]
+      <3>1. CASE f.kind = "par"
+        <4>1. f.id \in Par /\ f.id # s /\ pcache' = [pcache EXCEPT ![f.id] = TRUE]
+          BY <3>1, <1>2, <1>6 DEF Store, FrameT, IsParFrame
+        <4> QED BY <4>1, <1>2
+      <3>2. CASE f.kind # "par"
+        BY <3>2 DEF Store
+      <3> QED BY <3>1, <3>2
+    <2> QED BY <1>1, <1>3, <1>4, <1>5, <2>1, <2>2, RetopNeutralP
+  <1>7. CASE IsParFrame(f, s)
+    <2>1. ClsP(f, s) = "store" /\ evals[s] = 1
+      BY <1>7, <1>1, <1>2, <1>5 DEF ClsP, EvalFor
+    <2>2. pcache'[s] = TRUE
+      <3>1. f.kind = "par" /\ f.id = s /\ pcache' = [pcache EXCEPT ![f.id] = TRUE]
+        BY <1>7 DEF Store, IsParFrame
+      <3> QED BY <3>1, <1>2
+    <2>3. \A h \in G : \A i \in 1..Len(stack[h]) : ~(h = g /\ i = n) => ClsP(stack[h][i], s) = "none"
+      <3> SUFFICES ASSUME NEW h \in G, NEW i \in 1..Len(stack[h]), ~(h = g /\ i = n) PROVE ClsP(stack[h][i], s) = "none"
+        OBVIOUS
+      <3>1. n \in 1..Len(stack[g]) /\ IsParFrame(stack[g][n], s) /\ stack[g][n].phase \in HeldPhases
+        BY <1>7, <1>2, <1>1 DEF HeldPhases
+      <3> QED BY <3>1, OnlyOneInsideP
+    <2>4. \A h \in G : \A i \in 1..Len(stack'[h]) : ClsP(stack'[h][i], s) = "none"
+      <3> SUFFICES ASSUME NEW h \in G, NEW i \in 1..Len(stack'[h]) PROVE ClsP(stack'[h][i], s) = "none"
+        OBVIOUS
+      <3>1. CASE i \in 1..Len(stack[h]) /\ ~(h = g /\ i = n) /\ stack'[h][i] = stack[h][i]
+        BY <3>1, <2>3
+      <3>2. CASE h = g /\ i = n /\ stack'[h][i] = f2
+        BY <3>2, <1>5
+      <3>3. CASE h = g /\ i = n + 1 /\ stack'[h][i].phase = "lock"
+        BY <3>3 DEF ClsP
+      <3> QED BY <3>1, <3>2, <3>3, <1>4 DEF Shape
+    <2> QED BY <2>1, <2>2, <2>4, <1>3 DEF EvalFor
+  <1> QED BY <1>6, <1>7
+
+THEOREM EvalInductive == Inv /\ EvalInv /\ [CNext]_cvars => EvalInv'
+  <1> SUFFICES ASSUME Inv, EvalInv, [CNext]_cvars PROVE EvalInv'
+    OBVIOUS
+  <1>1. CASE UNCHANGED cvars
+    BY <1>1 DEF EvalInv, EvalFor, cvars, ClsP, IsParFrame
+  <1>2. ASSUME NEW g \in G, Begin(g) \/ Lock(g) \/ Check(g) \/ Dep(g) \/ Construct(g) \/ Store(g) \/ Unlock(g) \/ Return(g) PROVE EvalInv'
+    BY <1>2, BeginEval, LockEval, CheckEval, DepEval, ConstructEval, StoreEval, UnlockEval, ReturnEval
+  <1> QED BY <1>1, <1>2 DEF CNext
+
 THEOREM ConstructedOnceAlways == (CInit /\ [][CNext]_cvars) => []ConstructedOnce
   <1>1. CInit => Inv /\ OnceInv
     BY InitInv, InitOnce
@@ -1068,5 +1535,13 @@ THEOREM ConstructedOnceAlways == (CInit /\ [][CNext]_cvars) => []ConstructedOnce
     BY InvInductive, OnceInductive
   <1>3. (Inv /\ OnceInv) => ConstructedOnce
     BY OnceImplies
+  <1> QED BY <1>1, <1>2, <1>3, PTL
+THEOREM EvaluatedOnceAlways == (CInit /\ [][CNext]_cvars) => []EvaluatedOnce
+  <1>1. CInit => Inv /\ EvalInv
+    BY InitInv, InitEval
+  <1>2. (Inv /\ EvalInv) /\ [CNext]_cvars => (Inv /\ EvalInv)'
+    BY InvInductive, EvalInductive
+  <1>3. (Inv /\ EvalInv) => EvaluatedOnce
+    BY EvalImplies
   <1> QED BY <1>1, <1>2, <1>3, PTL
 =============================================================================
